@@ -14,7 +14,7 @@ SHAPES = [[3,0,2,1],[0,2],[2,0],[0,0],[1,3],[0],[2],[],[0,1,0,0,2],[2,2,3],[1,1,
 
 
 def translator_tie():
-    return vlib.translator_tie(["view"])
+    return vlib.translator_tie(["view", "elem"])
 
 
 def enc_rsel(r):
